@@ -68,7 +68,15 @@ func genC02(t *rapid.T) DocCase {
 	if gen.Chance(t, 2) {
 		vals = append(vals, gen.Deep(t, gen.Range(t, 10, 64)))
 	}
-	return printDoc(vals, gen.RapidChooser{T: t})
+	d := printDoc(vals, gen.RapidChooser{T: t})
+	if gen.Chance(t, 10) {
+		// same values, shifted so that a token needing lookahead (\r\n, ''', ::,
+		// {{, //, ...) straddles the reader's 4096-byte buffer boundary
+		d.Doc = alignToBuffer(d.Doc, func(n int) int { return gen.Intn(t, n) })
+		d.NonCanon++
+		d.Dims = append(d.Dims, "doc.aligned-to-buffer-boundary")
+	}
+	return d
 }
 
 func TestC02(t *testing.T) {
